@@ -51,7 +51,7 @@ def main():
             "engine": "+".join(engs),
             "level_claimed": {
                 "category": "model_checking",
-                "text": meta["level_text"],
+                "text": meta["level_text"] + (" " + meta["level_text_more"] if meta.get("level_text_more") else ""),
                 "design_ref": meta.get("design_ref", "DESIGN.md section 5, " + pid),
             },
             "level_note": meta["level_note"],
